@@ -35,7 +35,7 @@ func init() {
 	Register(&Rule{
 		ID:    "R-FLAGXFORM",
 		Doc:   "sibling agreement of proto's scalar codecs: the size function and the encode function of one codec literal apply the same flag-dependent transformations to the value (the set of proto.flags methods they call on their flags parameter, e.g. flags.uint64 for the zig-zag option): a size computed without the transformation that the encoder applies disagrees with the bytes written (short buffer, or zero padding) for zig-zag tagged fields",
-		Props: []string{"C03", "C16"},
+		Props: []string{"C03", "C16", "C12"},
 		Min:   map[string]int{"C03": 3},
 		Run:   runFlagXform,
 	})
@@ -169,7 +169,7 @@ func runInline(c *core.Ctx) []core.Obligation {
 }
 
 func runFlagXform(c *core.Ctx) []core.Obligation {
-	b := newOb(c, "R-FLAGXFORM", "C03", "C16")
+	b := newOb(c, "R-FLAGXFORM", "C03", "C16", "C12")
 	// codec literals: package-level variables of type proto.codec whose size and encode fields are
 	// initialised with functions; found through the stores of the package initialiser
 	pp := c.Pkg("proto")
